@@ -1,8 +1,8 @@
 package c08
 
 import (
-	"encoding/binary"
 	"context"
+	"encoding/binary"
 	"fmt"
 	"os"
 	"strings"
@@ -40,7 +40,8 @@ type Step struct {
 }
 
 type Case struct {
-	NoBootstrap bool   `json:"no_bootstrap"` // the Conn exposes no bootstrap capability
+	NoBootstrap bool   `json:"no_bootstrap"`          // the Conn exposes no bootstrap capability
+	NoReporter  bool   `json:"no_reporter,omitempty"` // the Conn is created without an ErrorReporter
 	Steps       []Step `json:"steps"`
 }
 
@@ -561,6 +562,18 @@ func (h *harness) hostile(s Step) error {
 			f.SetQuestionId(5)
 			return nil
 		})
+	case "null-body":
+		// the union names a message kind, the pointer to its body is null: an all-default message of that kind
+		// (question/answer/export id 0, null target, no payload).  Whatever the connection makes of it is fine
+		// as long as it makes something of it.
+		tags := []uint16{2, 3, 4, 6, 8, 13, 0, 5, 10, 11, 12, 1}
+		tag := tags[s.Var%len(tags)]
+		desc = fmt.Sprintf("message with union tag %d and a null body", tag)
+		allow("return", "abort", "unimplemented", "silent")
+		err = push(func(m rpccp.Message) error {
+			m.Struct.SetUint16(0, tag)
+			return nil
+		})
 	case "abort":
 		desc = "Abort"
 		allow("abort")
@@ -625,7 +638,11 @@ func run(c Case) (pbt.Result, error) {
 		_, boot = h.world.NewObject()
 	}
 	rep := &errList{}
-	h.conn = rpc.NewConn(h.w, &rpc.Options{BootstrapClient: boot, ErrorReporter: rep, AbortTimeout: 50 * time.Millisecond})
+	opts := &rpc.Options{BootstrapClient: boot, ErrorReporter: rep, AbortTimeout: 50 * time.Millisecond}
+	if c.NoReporter {
+		opts.ErrorReporter = nil
+	}
+	h.conn = rpc.NewConn(h.w, opts)
 	hostileWithLive := false
 	for _, s := range c.Steps {
 		if h.aborted {
@@ -842,10 +859,10 @@ func run(c Case) (pbt.Result, error) {
 	return res, nil
 }
 
-var hostileKinds = []string{"bootstrap", "call-import", "call-answer", "call-badcaps", "call-rawtarget", "return", "finish", "release", "disembargo", "level2", "unimplemented", "abort"}
+var hostileKinds = []string{"bootstrap", "call-import", "call-answer", "call-badcaps", "call-rawtarget", "return", "finish", "release", "disembargo", "level2", "unimplemented", "abort", "null-body"}
 
 func genCase(t *rapid.T) Case {
-	c := Case{NoBootstrap: rapid.IntRange(0, 7).Draw(t, "noboot") == 0}
+	c := Case{NoBootstrap: rapid.IntRange(0, 7).Draw(t, "noboot") == 0, NoReporter: rapid.IntRange(0, 3).Draw(t, "noreporter") == 0}
 	kinds := []string{"ping", "keep-ping", "held-call", "err-call", "ok-call", "open", "app-bootstrap", "app-call", "hostile", "hostile", "hostile", "hostile", "corrupt", "release-race"}
 	if rapid.IntRange(0, 5).Draw(t, "skeleton") == 0 {
 		// a local caller waiting for the peer, then a Return for exactly that question
@@ -882,7 +899,7 @@ func genCase(t *rapid.T) Case {
 
 var _ = pbt.Register(pbt.Spec[Case]{
 	Property: "C08", Name: "hostile-peer",
-	Rule:  "histories of up to 10 steps against a live rpc.Conn over a harness-owned transport: valid traffic that creates live table entries (Bootstrap pings kept open, calls held inside a local server object, local Bootstrap()/calls pending at the peer) interleaved with hostile messages built with the rpc.capnp schema: Bootstrap/Call/Finish/Return/Release/Disembargo naming fresh, live, finished, never-used and 2^32-1 ids; calls to absent exports and absent/finished promised answers with transforms up to field 300; params with capability descriptors of every kind incl. non-existent receiverHosted ids; raw unknown union tags; non-struct params; sendResultsTo != caller; Returns of every variant incl. capability tables naming absent exports or absent answers, content/exception pointers leading out of the segment, aimed at questions a local caller is waiting on (1 in 6 cases starts with local Bootstrap [+ call] and a Return for that question); over-release; level-2 messages; Unimplemented; Abort; and byte-corrupted/truncated frames. Oracle after every offending message: the process lives (crash journal), and the connection is either alive (a later marker message is echoed and a fresh Bootstrap on a reserved id gets its correct Return) or aborted (at most one Abort as last message, transport closed, Done() closed); the offence is answered by one of the outcomes the protocol allows for it (exception/results Return, Unimplemented echo, Abort, or nothing for messages that are in fact legal); finally Close() returns, every local call resolves, bootstrap clients release. Non-trivial: an offending message arrived while >=1 table entry was live.",
+	Rule:  "histories of up to 10 steps against a live rpc.Conn over a harness-owned transport: valid traffic that creates live table entries (Bootstrap pings kept open, calls held inside a local server object, local Bootstrap()/calls pending at the peer) interleaved with hostile messages built with the rpc.capnp schema: Bootstrap/Call/Finish/Return/Release/Disembargo naming fresh, live, finished, never-used and 2^32-1 ids; calls to absent exports and absent/finished promised answers with transforms up to field 300; params with capability descriptors of every kind incl. non-existent receiverHosted ids; raw unknown union tags; non-struct params; sendResultsTo != caller; Returns of every variant incl. capability tables naming absent exports or absent answers, content/exception pointers leading out of the segment, aimed at questions a local caller is waiting on (1 in 6 cases starts with local Bootstrap [+ call] and a Return for that question); over-release; level-2 messages; Unimplemented; Abort; messages whose union names a kind while the body pointer is null (all-default Call, Return, Finish, Release, Bootstrap, Disembargo, ...); a quarter of the connections has no ErrorReporter; and byte-corrupted/truncated frames. Oracle after every offending message: the process lives (crash journal), and the connection is either alive (a later marker message is echoed and a fresh Bootstrap on a reserved id gets its correct Return) or aborted (at most one Abort as last message, transport closed, Done() closed); the offence is answered by one of the outcomes the protocol allows for it (exception/results Return, Unimplemented echo, Abort, or nothing for messages that are in fact legal); finally Close() returns, every local call resolves, bootstrap clients release. Non-trivial: an offending message arrived while >=1 table entry was live.",
 	Quick: 10000, Thorough: 60000,
 	Gen: genCase,
 	Run: run,
